@@ -160,6 +160,14 @@ class VersionsProfile(StoreProfile):
                 vals = self.vocab(run).values(t2.name, t2.keys[-1]) or []
                 if vals:
                     sid = sid + "/" + rng.choice(vals)
+        # the same file with ANOTHER extension of its type, of which no version exists (its neighbours' versions are not its own)
+        if depth == len(segs) and m.is_leaf_type(tn) and rng.random() < 0.1:
+            exts = [e for e in (self.vocab(run).values(tn, m.by_name[tn].keys[-1]) or []) if e != segs[-1] and e not in m.alias]
+            if exts:
+                cand = "/".join(segs[:-1] + [rng.choice(exts)])
+                if m.natural_type(cand) == tn:
+                    sid = cand
+                    run.probes["same_file_other_extension"] += 1
         # a file Sid spelled with an extension alias ('maya' for ma / mb): the version calls expand it
         if depth == len(segs) and rng.random() < 0.25:
             names = sorted(a for a, members in m.alias.items() if sid.split("/")[-1] in members)
